@@ -152,18 +152,18 @@ func (m *connMangler) Read(b []byte) (int, error) {
 }
 
 type mbLink struct {
-	kind   string
-	client *modbus.Client
-	server *modbus.Server
-	regs   *modbus.Regs
-	model  *mbModel
-	unit   byte
-	setM   func(func([]byte) []byte)
+	kind    string
+	client  *modbus.Client
+	server  *modbus.Server
+	regs    *modbus.Regs
+	model   *mbModel
+	unit    byte
+	setM    func(func([]byte) []byte)
 	setHold func()
-	errs   *int64
-	mu     *sync.Mutex
-	srvErr *[]string
-	close  func()
+	errs    *int64
+	mu      *sync.Mutex
+	srvErr  *[]string
+	close   func()
 }
 
 func newMbLink(r *vlib.R, kind string, spec mbMapSpec, unit byte) *mbLink {
